@@ -120,6 +120,17 @@ def rcfg(ctx, f):
     return ctx.cfg(reraise_view(f.node))
 
 
+def quiet(g):
+    """edge_ok: entering `with util.safe_reraise():` cannot itself raise (constructing the context
+    manager only captures sys.exc_info()); without this every handler that uses it would appear to
+    have an exceptional exit before its cleanup."""
+    s = {n.id for n in g.nodes if n.kind == "with_enter" and is_safe_reraise(n.stmt)}
+
+    def ok(a, b, lab):
+        return not (a in s and lab == "exc")
+    return ok
+
+
 # ---------------------------------------------------------------------- node / edge patterns
 def own_calls(n) -> List[ast.Call]:
     """Calls evaluated by CFG node `n` itself (not by nested blocks)."""
